@@ -327,6 +327,17 @@ func encodeBlock(b types.Block) []byte {
 	return buf.Bytes()
 }
 
+// decodeBlockSafe is decodeBlock for callers that do not expect a panic (they
+// decode what the library itself encoded): a decoder that panics has failed to decode.
+func decodeBlockSafe(p []byte) (b types.Block, err error) {
+	defer func() {
+		if r := recover(); r != nil {
+			err = fmt.Errorf("decode panicked: %v", r)
+		}
+	}()
+	return decodeBlock(p)
+}
+
 func decodeBlock(p []byte) (b types.Block, err error) {
 	d := types.NewBufDecoder(p)
 	(*types.V2Block)(&b).DecodeFrom(d)
